@@ -41,6 +41,12 @@ func ringStep[T helper.Number](capacity, begin, end, empty, op, arg int) {
 		return
 	}
 	r := helper.NewRing[T](capacity)
+	if vrt.NumFields(r) != 4 {
+		// the representation is no longer {buffer, begin, end, empty}: the states built
+		// below would not be states of the real type; the history harness still applies
+		vrt.Note("ring_representation_changed", vrt.NumFields(r))
+		return
+	}
 	buf := make([]T, capacity)
 	for i := range buf {
 		buf[i] = vrt.Num[T]("b", i)
